@@ -5,21 +5,48 @@ import AslModel.Retry
 namespace Asl.Drv.Crash
 open Asl Asl.Drv Asl.Crash
 
+def natOf? : Json → Option Nat
+  | .num n => if n < 0 then none else some n.toNat
+  | _ => none
+
 mutual
-/-- a skeleton: a JSON array of "T" (Task), "X" (a Task whose reply fails the execution), "S" (a visit handled
-in one go), "W" (a visit that goes on from a timer) and {"par": [skeleton, …], "mc": n} -/
+/-- a skeleton: a JSON array of "T" (Task; {"T": rc}: the event of a retry), "S" (a visit handled in one go), "W" (a visit
+that goes on from a timer), {"par": [skeleton, …], "mc": n}, {"child": skeleton, "rc": n, "then": …} (a synchronous child
+execution), "?" (a path the crash-free run did not take) and, as the last item, {"fail": null | level, "cont": skeleton}
+(the visit before fails; "X" = "T" followed by {"fail": null}) -/
 def skOf : Nat → List Json → Option Sk
   | 0, _ => none
   | _ + 1, [] => some .done
   | fuel + 1, x :: rest =>
     match x with
     | .str s =>
-      if s = S "T" then (skOf fuel rest).map .task
-      else if s = S "X" then some .taskFail
+      if s = S "T" then (skOf fuel rest).map (.task 0)
+      else if s = S "X" then some (.task 0 (.fail none .done))
       else if s = S "S" then (skOf fuel rest).map .step
       else if s = S "W" then (skOf fuel rest).map .wait
+      else if s = S "?" then some .opaque
       else none
     | .obj kvs =>
+      match objGet kvs (S "T") with
+      | some n => (match natOf? n with
+        | some rc => (skOf fuel rest).map (.task rc)
+        | none => none)
+      | none =>
+      match objGet kvs (S "fail") with
+      | some lv =>
+        let cont := match objGet kvs (S "cont") with
+          | some (.arr xs) => skOf fuel xs
+          | _ => some .done
+        cont.map (fun k => .fail (natOf? lv) k)
+      | none =>
+      match objGet kvs (S "child") with
+      | some (.arr xs) =>
+        let rc := match objGet kvs (S "rc") with | some (.num n) => n.toNat | _ => 0
+        (match skOf fuel xs, skOf fuel rest with
+         | some sub, some r => some (.child rc sub r)
+         | _, _ => none)
+      | some _ => none
+      | none =>
       match objGet kvs (S "par"), skOf fuel rest with
       | some (.arr bs), some r =>
         let mc := match objGet kvs (S "mc") with | some (.num n) => n.toNat | _ => 0
@@ -37,10 +64,6 @@ def brOf : Nat → List Json → Option Br
       | _, _ => none
     | _ => none
 end
-
-def natOf? : Json → Option Nat
-  | .num n => if n < 0 then none else some n.toNat
-  | _ => none
 
 /-- ["ev" | "tm" | "rp", id, cut?] / ["tick", null, cut?] / ["crash"] -/
 def opOf : Json → Option (Op × Option Nat)
@@ -60,7 +83,8 @@ def opOf : Json → Option (Op × Option Nat)
 
 def quirksOf (s : String) : Quirks :=
   let has (x : String) : Bool := (s.splitOn ",").contains x
-  { requestFromTimer := has "F1", replyAckedBeforeJoin := has "F2", nestedJoinAcksEarly := has "F4" }
+  { requestFromTimer := has "F1", replyAckedBeforeJoin := has "F2", nestedJoinAcksEarly := has "F4",
+    batchRelaunched := has "F7", childAnswerInProcess := has "F8" }
 
 def nats (xs : List Nat) : Json := .arr (xs.map (fun n => Json.num (Int.ofNat n)))
 
@@ -87,6 +111,7 @@ def handle : List String → String
           "ok\t" ++ js (.obj [(S "sync", .bool true), (S "terminal", .bool o.terminal), (S "notes", .num (Int.ofNat o.notes)),
             (S "resent", nats o.resent), (S "pendingUnsent", nats o.pendingUnsent), (S "pendingLost", nats o.pendingLost),
             (S "quiet", .bool o.quiet), (S "requests", .num (Int.ofNat c'.sent.length)),
+            (S "diverged", .bool c'.diverged),
             (S "heldEvents", nats ((c'.evq.filter (·.unacked)).map (·.id))),
             (S "joins", .num (Int.ofNat c'.joins.length))])
       | _, _ => "unsupported"
